@@ -191,12 +191,16 @@ def extra_C20(rng, tier, progs, results):
     import subprocess, json
     info = {}
     viol = []
-    ex = os.path.join(runner.BUILD, 'extract')
+    ex = os.path.join(runner.BUILD, 'extract-%d' % os.getpid())
     r = subprocess.run(['go', 'build', '-o', ex, '.'], cwd=os.path.join(runner.VERIF, 'extract'), env=runner.GOENV, capture_output=True, text=True)
     if r.returncode != 0:
         info['extract_error'] = (r.stdout + r.stderr)[-500:]
         return {'violations': [], 'info': info}
     out = subprocess.run([ex, '/repo'], capture_output=True, text=True).stdout
+    try:
+        os.remove(ex)
+    except OSError:
+        pass
     try:
         facts = json.loads(out)
     except Exception:
